@@ -301,6 +301,10 @@ def run(ctx, chk, tier):
     rule_of_three(ctx, chk)
     aggregate(ctx, chk)
     band_functions(ctx, chk)
+    from . import c15, c11
+    # every built-in sampler delivers at least one scored positive and negative (the band functions set thresholds at FNR/FPR on each replicate)
+    c11.sample_wellformed(ctx, chk)
+    c15.support_args_untouched(ctx, chk, "R16.7", with_extra=True)
     for q in BANDS:
         fn = ctx.db.function(q)
         k, finds = lint(fn.node)
